@@ -750,7 +750,20 @@ pub fn run(c: &Sexp) -> Sexp {
         13 => {
             let chunks: Vec<String> = c.at(1).list().iter().map(chunk_text).collect();
             set_rechunk(c.at(2));
-            let mk = || TextStream::new(stream::iter(chunks.clone().into_iter().map(Ok)));
+            // (the fourth element selects the constructor: `TextStream::new` over results, or
+            // `TextStream::from` over anything that converts into a String)
+            let ctor = c.at(3).num();
+            let mk = || {
+                if ctor == 1 {
+                    TextStream::from(stream::iter(chunks.clone().into_iter()))
+                } else if ctor == 2 {
+                    let strs: Vec<std::borrow::Cow<'static, str>> =
+                        chunks.iter().map(|c| std::borrow::Cow::Owned(c.clone())).collect();
+                    TextStream::from(stream::iter(strs.into_iter()))
+                } else {
+                    TextStream::new(stream::iter(chunks.clone().into_iter().map(Ok)))
+                }
+            };
             let remote = sum_text(block_on(EchoText { input: mk() }.run_on_client()));
             let direct = sum_text(block_on(echo_text(mk())));
             Lst(vec![remote, direct])
